@@ -614,7 +614,11 @@ macro_rules! mk {
                 $alias::<$t>::new(&mut v[..])
             }
             Path::FromVec => $alias::<$t>::from($v),
-            Path::Collect => $v.into_iter().collect::<$alias<$t>>(),
+            Path::Collect => {
+                // the source reports an exact or a legal-but-unhelpful size hint (chosen by the length)
+                let style = ($v.len() % crate::core::HINT_STYLES as usize) as u8;
+                crate::core::Hinted { inner: $v.into_iter(), style }.collect::<$alias<$t>>()
+            }
         }
     };
 }
